@@ -26,6 +26,7 @@ func TestPropRewards(t *testing.T) {
 	drv.Check(t, drv.Cfg{Name: "cl-rewards", Rule: rule, Quick: 150, Thorough: 2200, Steps: 30, TSteps: 60}, func(rt *rapid.T, c *drv.Case) {
 		s := clsim.New(rt, t)
 		s.SpreadLedger = true
+		s.IncLedger = clsim.NewIncLedger()
 		s.StrictExit = true
 		paidOut := map[string]*big.Int{}
 		stranded := map[string]*big.Int{}
@@ -62,10 +63,10 @@ func TestPropRewards(t *testing.T) {
 			}
 		}
 		acts := s.Actions()
-		acts["createSame"] = s.CreateSameRange
-		acts["createSame2"] = s.CreateSameRange
+		acts["createSame"] = s.WrapLedger(s.CreateSameRange)
+		acts["createSame2"] = s.WrapLedger(s.CreateSameRange)
 		// wrap collectIncentives to observe the owner's balance
-		acts["collectIncentive"] = func(rt *rapid.T) {
+		acts["collectIncentive"] = s.WrapLedger(func(rt *rapid.T) {
 			ids := s.SortedKnown()
 			if len(ids) == 0 {
 				rt.Skip("no positions")
@@ -97,8 +98,9 @@ func TestPropRewards(t *testing.T) {
 			if !resp.ForfeitedIncentives.IsZero() {
 				s.Classes["claim-with-forfeiture"]++
 			}
+			s.Ev = &clsim.Event{Kind: "collectInc", ID: id, Owner: s.Known[id].Owner, Collected: resp.CollectedIncentives, Forfeited: resp.ForfeitedIncentives, HasResp: true}
 			s.Hist = append(s.Hist, "collectInc#"+strings.TrimSpace(resp.CollectedIncentives.String())+" forfeited="+resp.ForfeitedIncentives.String())
-		}
+		})
 		// every action: incentive coins leaving the incentive account are "paid out"
 		for name, f := range acts {
 			f := f
@@ -133,11 +135,21 @@ func TestPropRewards(t *testing.T) {
 			s.CheckBookkeeping(rt)
 			s.CheckRewardProportionality(rt)
 			s.IncentiveAccounting(rt, paidOut, stranded)
+			s.CheckIncentiveLedger(rt)
 			if step%4 == 0 {
 				s.CheckSolvency(rt)
 			}
 		}
 		rt.Repeat(acts)
+		if s.IncLedger.Checked > 0 {
+			c.Class("incentive-ledger-nonzero-booking-checked")
+		}
+		if s.IncLedger.Claims > 0 {
+			c.Class("incentive-ledger-claim-checked")
+		}
+		if s.IncLedger.Redep > 0 {
+			c.Class("incentive-ledger-forfeit-redeposited")
+		}
 		for k, n := range s.Classes {
 			if n > 0 {
 				c.Class(k)
